@@ -4,7 +4,9 @@
    turns, i.e. are the same phase.  cos/sin/abs/angle are not modelled: see C14_gain_reproduces_valid_cartesian for what
    that means for the Cartesian value.  cal_product_types / default_cal_products are regenerated from the source. *)
 From Coq Require Import ZArith QArith Qround Qabs List Bool String Sorting.Sorted.
-From KV Require Import Base.Sx Base.Str Gen.Generated Model.Interp Model.CalInterp Proofs.InterpP Proofs.CalInterpP.
+From KV Require Import Base.Sx Base.Str Gen.Generated Model.Interp Model.CalInterp Model.CalSelect Model.CalDispatch
+  Model.CalDeliver Proofs.InterpP Proofs.CalInterpP Proofs.CalStitchP Proofs.CalSelectP Proofs.CalDispatchP
+  Proofs.CalDeliverP.
 Import ListNotations.
 Open Scope Q_scope.
 
@@ -132,16 +134,35 @@ Theorem C14_flux_override :
 Proof. split; [exact merge_flux_override | reflexivity]. Qed.
 Print Assumptions C14_flux_override.
 
-(* MULTI-PART PRODUCTS.  Output timestamps strictly increase and each comes from some part; each output value is the
-   concatenation, in part order, of the parts' pieces at that timestamp with absent pieces INVALID.
-   FULL statement (stitch_sorted_union) additionally: every timestamp of every part appears in the output — not proved
-   (tied by the correspondence only), hence _partial. *)
-Theorem C14_stitch_sorted_union_partial : forall ps out,
+(* MULTI-PART PRODUCTS (full strength; was _partial until completeness was proved in Proofs/CalStitchP.v).
+   The stitched product is the timestamp-sorted union of the parts: output timestamps strictly increase, each comes from
+   a part, EVERY timestamp of EVERY part appears, and every output value is `assemble` of one piece per part in part
+   (= channel) order where the piece of part i is that part's value at this timestamp when it has one and INVALID
+   (None) exactly when it has none (piece_ok). *)
+Theorem C14_stitch_sorted_union : forall ps out,
   Forall (fun p => StronglySorted Qlt (map fst p)) ps -> stitch ps = Some out ->
   StronglySorted Qlt (map fst out) /\
-  (forall s, In s out -> exists p s', In p ps /\ In s' p /\ fst s' = fst s).
-Proof. exact stitch_sorted_sound. Qed.
-Print Assumptions C14_stitch_sorted_union_partial.
+  (forall s, In s out -> exists p s', In p ps /\ In s' p /\ fst s' = fst s) /\
+  (forall i s', In s' (nth i ps []) -> exists s, In s out /\ fst s == fst s') /\
+  (forall s, In s out -> exists pcs, snd s = assemble pcs /\ List.length pcs = List.length ps /\
+                                     forall i, piece_ok (nth i ps []) (fst s) (nth i pcs None)).
+Proof. exact stitch_sorted_union. Qed.
+Print Assumptions C14_stitch_sorted_union.
+
+(* KeyError (no product at all) exactly when no part has any sample *)
+Theorem C14_stitch_none_iff : forall ps, Forall (fun p => StronglySorted Qlt (map fst p)) ps ->
+  (stitch ps = None <-> forall p, In p ps -> p = []).
+Proof. exact stitch_none_iff. Qed.
+Print Assumptions C14_stitch_none_iff.
+
+(* several substreams (self-cal: one per target): a part that some substream lacks is absent altogether, a part all
+   substreams have is their time-ordered concatenation (a single substream: the sensor itself), then stitched *)
+Theorem C14_stitch_substreams :
+  (forall parts, stitch_substreams parts = stitch (map part_of_substreams parts)) /\
+  (forall subs, In None subs -> part_of_substreams subs = []) /\
+  (forall ps, part_of_substreams (map Some ps) = match ps with [p] => p | _ => merge_substreams ps end).
+Proof. exact stitch_substreams_spec. Qed.
+Print Assumptions C14_stitch_substreams.
 
 Theorem C14_stitch_parts_in_channel_order : forall pcs,
   assemble pcs = flat_map (fun pc => match pc with Some v => v | None => map (fun _ => None) (last_present pcs []) end) pcs
@@ -196,3 +217,171 @@ Theorem C14_normalise_compositional :
      skip = (is_group r || existsb (fun p => negb (has_dot p)) (selection_to_list r streams))%bool).
 Proof. exact (conj expand_app normalise_skip_flag). Qed.
 Print Assumptions C14_normalise_compositional.
+
+(* WHICH PRODUCTS GET APPLIED (Model/CalSelect.v: calc_correction's product loop, the existence of the correction
+   sensors, stream discovery).  `avail p inp` = the correction sensor of product p for data input inp exists;
+   product_ok = it exists for EVERY data input.  None = KeyError. *)
+(* "skipping ... missing ones": with skip_missing_products the products applied are exactly the requested products
+   that are in the data set, each once, in request order — for every request list and every availability. *)
+Theorem C14_select_skips_missing : forall avail inputs ps,
+  select avail inputs true ps = Some (dedup_first (filter (product_ok avail inputs) ps)).
+Proof. exact select_skips_missing. Qed.
+Print Assumptions C14_select_skips_missing.
+
+(* the same as membership: every present requested product is applied wherever the missing ones stand, nothing else,
+   nothing twice *)
+Theorem C14_select_skip_complete_sound : forall avail inputs ps,
+  exists out, select avail inputs true ps = Some out /\
+    (forall p, In p out <-> In p ps /\ product_ok avail inputs p = true) /\ NoDup out.
+Proof. exact select_skip_complete_sound. Qed.
+Print Assumptions C14_select_skip_complete_sound.
+
+(* a missing product does not affect the products before or after it; applied products of a prefix are a prefix *)
+Theorem C14_select_missing_irrelevant :
+  (forall avail inputs a m b, product_ok avail inputs m = false ->
+     select avail inputs true (a ++ m :: b) = select avail inputs true (a ++ b)) /\
+  (forall avail inputs a b out, select avail inputs true (a ++ b) = Some out ->
+     exists rest, select avail inputs true a = Some (dedup_first (filter (product_ok avail inputs) a)) /\
+                  out = (dedup_first (filter (product_ok avail inputs) a) ++ rest)%list).
+Proof. exact (conj select_missing_irrelevant select_prefix). Qed.
+Print Assumptions C14_select_missing_irrelevant.
+
+(* "... or rejecting missing ones": without the flag it is all requested products or KeyError *)
+Theorem C14_select_rejects_missing : forall avail inputs ps,
+  select avail inputs false ps =
+  if forallb (product_ok avail inputs) ps then Some (dedup_first ps) else None.
+Proof. exact select_rejects_missing. Qed.
+Print Assumptions C14_select_rejects_missing.
+
+(* a product is applied as a whole or not at all: one data input without a solution makes it missing *)
+Theorem C14_product_needs_every_input : forall avail inputs p inp,
+  In inp inputs -> avail p inp = false -> product_ok avail inputs p = false.
+Proof. exact product_needs_every_input. Qed.
+Print Assumptions C14_product_needs_every_input.
+
+(* the correction sensor of <stream>.<type> for an input exists iff the stream is registered, all its substreams
+   carry that product and the input is one of the stream's antenna x polarisation inputs *)
+Theorem C14_sensor_available : forall streams s t inp, In t cal_product_types ->
+  sensor_available streams (join_dot s t) inp =
+  match find_stream s streams with
+  | Some c => has_type c t && mem_string inp (cs_inputs c)
+  | None => false
+  end.
+Proof. exact sensor_available_spec. Qed.
+Print Assumptions C14_sensor_available.
+
+(* request -> applied products, end to end (None of normalise = ValueError): the loop of the code equals the
+   documented rule, and what that gives for 'all', 'default' and fully qualified requests *)
+Theorem C14_applycal_products : forall r streams inputs,
+  applycal_products r streams inputs = spec_applycal r streams inputs.
+Proof. exact applycal_is_spec. Qed.
+Print Assumptions C14_applycal_products.
+
+Theorem C14_applycal_all_default_dotted :
+  (forall streams inputs, (forall s, In s (map cs_name streams) -> has_dot s = false) ->
+     applycal_products (RStr "all") streams inputs =
+     Applied (dedup_first (filter (product_ok (sensor_available streams) inputs)
+                (flat_map (fun s => map (join_dot s) cal_product_types) (map cs_name streams))))) /\
+  (forall streams inputs, applycal_products (RStr "default") streams inputs =
+     Applied (dedup_first (filter (product_ok (sensor_available streams) inputs) default_cal_products))) /\
+  (forall streams inputs l, forallb has_dot l = true ->
+     applycal_products (RList l) streams inputs =
+     if forallb (product_ok (sensor_available streams) inputs) l then Applied (dedup_first l) else KeyErr).
+Proof. exact (conj applycal_all (conj applycal_default applycal_dotted)). Qed.
+Print Assumptions C14_applycal_all_default_dotted.
+
+(* STREAM DISCOVERY: L1 = the first archived sdp.cal stream ('cal' if none); L2 = one <stream>_<target>_selfcal
+   substream per target of the first sdp.continuum_image stream that has targets *)
+Theorem C14_discover_streams :
+  (forall pre a post, (forall b, In b pre -> as_type b <> "sdp.cal") -> as_type a = "sdp.cal" -> as_name a <> "" ->
+     fst (discover (pre ++ a :: post)) = as_name a) /\
+  (forall l, (forall b, In b l -> as_type b <> "sdp.cal") -> fst (discover l) = "cal") /\
+  (forall pre a post, (forall b, In b pre -> as_type b <> "sdp.continuum_image" \/ as_targets b = []) ->
+     as_type a = "sdp.continuum_image" -> as_targets a <> [] ->
+     snd (discover (pre ++ a :: post)) = map (selfcal_name (as_name a)) (as_targets a)).
+Proof. exact (conj discover_l1_first (conj discover_l1_default discover_l2_first)). Qed.
+Print Assumptions C14_discover_streams.
+
+(* DISPATCH BY PRODUCT TYPE (Model/CalDispatch.v; `cal_dispatch` is regenerated from the if/elif chain of
+   calc_correction_per_input on every run): K -> delays, B -> bandpass, G -> flux calibration then interpolation over
+   all dumps, GPHASE / GAMP_PHASE -> interpolation per target without flux scaling; exactly the known types have a
+   calculator (anything else: KeyError). *)
+Theorem C14_dispatch_by_type :
+  (kind_of_type "K" = Some KDelay /\ kind_of_type "B" = Some KBandpass /\
+   kind_of_type "G" = Some (KGain true false) /\
+   kind_of_type "GPHASE" = Some (KGain false true) /\ kind_of_type "GAMP_PHASE" = Some (KGain false true)) /\
+  (forall t, kind_of_type t <> None <-> In t cal_product_types).
+Proof. exact (conj dispatch_table dispatch_domain). Qed.
+Print Assumptions C14_dispatch_by_type.
+
+(* so: "scaled by the inverse square root of the flux when known" is what happens to G and only G, and "only uses
+   solutions derived on the same target" (C14_selfcal_target_isolation) is what happens to the self-cal products *)
+Theorem C14_dispatch_gain_like :
+  (forall rsqrt N sols names_at tbl targets,
+     gain_like_correction rsqrt "G" N sols names_at tbl targets =
+     Some (gain_corr N (calibrate_flux rsqrt sols names_at tbl) None)) /\
+  (forall rsqrt t N sols names_at tbl targets, t = "GPHASE" \/ t = "GAMP_PHASE" ->
+     gain_like_correction rsqrt t N sols names_at tbl targets = Some (gain_corr N sols (Some targets))).
+Proof. exact (conj dispatch_G dispatch_selfcal). Qed.
+Print Assumptions C14_dispatch_gain_like.
+
+(* the decisions the model takes over from the source as regenerated constants are the documented ones: bandpasses are
+   INVALID beyond the outermost valid channel, gains hold the nearest solution, a gain solution is valid when finite
+   AND on the target, 'all' / 'default' always skip missing products, and the product loop of calc_correction has the
+   shape Model/CalSelect.v `select` follows *)
+Theorem C14_source_decisions :
+  (bandpass_left_invalid, bandpass_right_invalid) = (true, true) /\
+  (gain_left_invalid, gain_right_invalid) = (false, false) /\
+  gain_valid_needs_on_target = true /\ skip_group_names = ["all"; "default"] /\ product_loop_shape_checked = true.
+Proof. exact interp_edges. Qed.
+Print Assumptions C14_source_decisions.
+
+(* MODEL = SPEC for the parts of the model that follow constants regenerated from the source: as long as the source
+   takes the documented decisions, the model of bandpass / gain corrections and of the dispatch IS the documented rule
+   (spec_* are written without any constant from the source).  All gain / bandpass theorems above are about the model. *)
+Theorem C14_model_is_spec :
+  (forall cf df segs, bandpass_corr cf df segs = spec_bandpass_corr cf df segs) /\
+  (forall N sols targets, gain_corr N sols targets = spec_gain_corr N sols targets) /\
+  (forall rsqrt t N sols names_at tbl targets,
+     gain_like_correction rsqrt t N sols names_at tbl targets =
+     spec_gain_like_correction rsqrt t N sols names_at tbl targets).
+Proof. exact (conj bandpass_is_spec (conj gain_is_spec dispatch_is_spec)). Qed.
+Print Assumptions C14_model_is_spec.
+
+(* WHAT THE DATA CHANNELS RECEIVE (Model/CalDeliver.v: the channel-map choice of calc_correction — Model/Applycal.v
+   choose_map, whose K/B clause is regenerated from the source — and g[i1] * conj(g[i2])).  `data` = the data channel
+   frequencies, `cal` = the cal stream's channel frequencies: ANY two lists (same or different lengths, equal, offset,
+   narrower, coarser).  i1, i2 = the two inputs of a correlation product. *)
+(* "Delay solutions become exp(-2 pi i delay frequency)" AT THE DATA CHANNEL'S OWN FREQUENCY: magnitude 1, phase
+   -(d1 - d2) * data[c] turns, a NaN delay = 0, for every cal channelisation. *)
+Theorem C14_delivered_delay :
+  (forall data cal delays i1 i2, (i1 < List.length delays)%nat -> (i2 < List.length delays)%nat ->
+     delivered_delay data cal delays i1 i2 = spec_delivered_delay data delays i1 i2) /\
+  (forall data cal delays i1 i2 c,
+     (i1 < List.length delays)%nat -> (i2 < List.length delays)%nat -> (c < List.length data)%nat ->
+     exists m p, nth c (delivered_delay data cal delays i1 i2) None = Some (m, p) /\ m == 1 /\
+       p == - (((match nth i1 delays None with Some q => q | None => 0 end) -
+                (match nth i2 delays None with Some q => q | None => 0 end)) * nth c data 0)).
+Proof. exact (conj delivered_delay_is_spec delivered_delay_formula). Qed.
+Print Assumptions C14_delivered_delay.
+
+(* Bandpass: data channel c receives recip(interpolated solution of input 1 at data[c]) * conj(same for input 2), and
+   INVALID when data[c] lies beyond the outermost valid cal channel of input 1 — for every cal channelisation. *)
+Theorem C14_delivered_bandpass :
+  (forall data cal bps i1 i2, (i1 < List.length bps)%nat -> (i2 < List.length bps)%nat ->
+     delivered_bandpass data cal bps i1 i2 = spec_delivered_bandpass data cal bps i1 i2) /\
+  (forall data cal bps i1 i2 c x0 v0 t,
+     (i1 < List.length bps)%nat -> (i2 < List.length bps)%nat -> (c < List.length data)%nat ->
+     valid_nodes cal (nth i1 bps []) = (x0, v0) :: t ->
+     (nth c data 0 < x0 \/ fst (last ((x0, v0) :: t) (x0, (0, 0))) < nth c data 0) ->
+     nth c (delivered_bandpass data cal bps i1 i2) None = None).
+Proof. exact (conj delivered_bandpass_is_spec delivered_bandpass_invalid_outside). Qed.
+Print Assumptions C14_delivered_bandpass.
+
+(* the general fact behind both: a K or B correction vector that is already on the data channels is handed over
+   channel by channel (never re-mapped through the cal stream's channelisation) *)
+Theorem C14_delivered_direct : forall data cal gs i1 i2 c,
+  gs <> [] -> (forall g, In g gs -> List.length g = List.length data) -> (c < List.length data)%nat ->
+  delivered true data cal gs i1 i2 c = cmul (nth c (nth i1 gs []) None) (cconj (nth c (nth i2 gs []) None)).
+Proof. exact delivered_direct. Qed.
+Print Assumptions C14_delivered_direct.
